@@ -160,3 +160,65 @@ pub fn run(args: &[String]) -> i32 {
     out.flush();
     0
 }
+
+/// Diagnostic: compile the first query of the case `n` times in this process (interleaved with the other queries of the
+/// case) and print where the Debug renderings differ.
+pub fn debug_diff(_args: &[String]) -> i32 {
+    let case: J = read_cases().into_iter().next().expect("one case");
+    let relations = relations_of(&case["tables"]);
+    let queries: Vec<String> = case["queries"].as_array().unwrap().iter().map(|q| q.as_str().unwrap().to_string()).collect();
+    let n = case["n"].as_u64().unwrap_or(1000) as usize;
+    let mut seen: Vec<(String, usize)> = vec![];
+    for i in 0..n {
+        for (qi, q) in queries.iter().enumerate() {
+            let r = guarded(|| parse(q).map(|p| Relation::try_from(p.with(&relations))));
+            if qi != 0 {
+                continue;
+            }
+            if let Ok(Ok(Ok(r))) = r {
+                let d = format!("{:?}", r);
+                match seen.iter_mut().find(|(s, _)| s == &d) {
+                    Some((_, c)) => *c += 1,
+                    None => {
+                        println!("new rendering at iteration {i} (len {})", d.len());
+                        seen.push((d, 1));
+                    }
+                }
+            }
+        }
+    }
+    println!("distinct renderings: {}", seen.len());
+    if seen.len() >= 2 {
+        let (a, b) = (&seen[0].0, &seen[1].0);
+        let k = a.bytes().zip(b.bytes()).position(|(x, y)| x != y).unwrap_or(0);
+        let lo = k.saturating_sub(300);
+        println!("counts: {:?}", seen.iter().map(|(_, c)| *c).collect::<Vec<_>>());
+        println!("A: ...{}", &a[lo..(k + 300).min(a.len())]);
+        println!("B: ...{}", &b[lo..(k + 300).min(b.len())]);
+    }
+    0
+}
+
+/// Diagnostic: the image of CASE WHEN x > 0 THEN x ELSE 0 END over x in int{0}, many times.
+pub fn debug_case(_args: &[String]) -> i32 {
+    use qrlew::{data_type::{function::Function as _, DataType}, expr::Expr};
+    let st = DataType::structured([("x", DataType::integer_value(0))]);
+    let mut seen: std::collections::BTreeMap<String, usize> = Default::default();
+    for _ in 0..20000 {
+        let cond = Expr::gt(Expr::col("x"), Expr::val(0.0));
+        let e = Expr::case(cond.clone(), Expr::col("x"), Expr::val(0.0));
+        let t = e.super_image(&st).map(|t| t.to_string()).unwrap_or_else(|e| e.to_string());
+        let c = cond.super_image(&st).map(|t| t.to_string()).unwrap_or_else(|e| e.to_string());
+        let direct = qrlew::data_type::function::case()
+            .super_image(&DataType::structured_from_data_types([DataType::boolean_value(false), DataType::integer_value(0), DataType::float_value(0.0)]))
+            .map(|t| t.to_string())
+            .unwrap_or_else(|e| e.to_string());
+        let opt = qrlew::data_type::function::Optional::new(qrlew::data_type::function::case())
+            .super_image(&DataType::structured_from_data_types([DataType::boolean_value(false), DataType::integer_value(0), DataType::float_value(0.0)]))
+            .map(|t| t.to_string())
+            .unwrap_or_else(|e| e.to_string());
+        *seen.entry(format!("case={t} cond={c} direct={direct} opt={opt}")).or_default() += 1;
+    }
+    println!("{:?}", seen);
+    0
+}
